@@ -526,3 +526,66 @@ func flowsElsewhere(v ssa.Value, cell ssa.Value) bool {
 	}
 	return false
 }
+
+// R18.6 [C18]
+func ruleRelMapTotal(c *eng.Ctx) {
+	const R = "R18.6-REL-MAP-TOTAL"
+	c.Rule(R, "a relationship table (r:id -> Target) is filled for every relationship regardless of how the target is spelled: a filter on the target's text (prefix, suffix, substring) drops absolute or relocated part names, and the declared part then silently falls back to a positional guess", 2, 0)
+	for _, fn := range c.P.ModuleFuncs() {
+		if fn.Pkg == nil {
+			continue
+		}
+		sp := eng.ShortPath(fn.Pkg.Pkg.Path())
+		if sp != "xlsx" && sp != "pptx" && sp != "docx" {
+			continue
+		}
+		eng.Instrs(fn, false, func(in ssa.Instruction) {
+			mu, ok := in.(*ssa.MapUpdate)
+			if !ok || !eng.InLoop(mu.Block()) {
+				return
+			}
+			fromField := func(v ssa.Value, field string) bool {
+				for w := range eng.Slice(v, nil) {
+					if fr, ok := eng.AsField(w); ok && fr.Field == field {
+						return true
+					}
+				}
+				return false
+			}
+			if !fromField(mu.Key, "ID") || !fromField(mu.Value, "Target") {
+				return
+			}
+			// conditions that decide whether the update runs and read the target's text
+			bad := ""
+			for _, b := range fn.Blocks {
+				if len(b.Instrs) == 0 || !b.Dominates(mu.Block()) || b == mu.Block() {
+					continue
+				}
+				iff, ok := b.Instrs[len(b.Instrs)-1].(*ssa.If)
+				if !ok {
+					continue
+				}
+				readsTarget := false
+				for w := range eng.Slice(iff.Cond, func(call *ssa.Call) bool { return strings.HasPrefix(eng.CalleeName(call), "strings.") }) {
+					if fr, ok := eng.AsField(w); ok && fr.Field == "Target" {
+						readsTarget = true
+					}
+				}
+				if !readsTarget {
+					continue
+				}
+				// comparison of the whole target with "" is not a test of its spelling
+				if cmp, ok := iff.Cond.(*ssa.BinOp); ok && (cmp.Op == token.EQL || cmp.Op == token.NEQ) {
+					if s, ok := eng.ConstString(cmp.Y); ok && s == "" {
+						continue
+					}
+					if s, ok := eng.ConstString(cmp.X); ok && s == "" {
+						continue
+					}
+				}
+				bad = c.P.Pos(iff.Pos())
+			}
+			c.Check(bad == "", R, eng.FuncName(fn)+"#rid-table", mu.Pos(), "every relationship is recorded", "the r:id -> target table skips relationships depending on the text of their Target (test at "+bad+"): a part written with an absolute or unusual path is no longer found by its id")
+		})
+	}
+}
